@@ -279,9 +279,24 @@ impl<'a> IVP for Instr<'a> {
     fn event_config(&self, i: usize) -> EventConfig {
         let mut c = EventConfig::new();
         let e = &self.events[i];
-        c.direction(Direction::from(e.dir as i32));
-        if let Some(k) = e.terminal {
-            c.terminal_count(k);
+        // every way of building the same configuration (the setters must commute): odd-numbered functions set the
+        // occurrence count first and then the direction through all() / positive() / negative()
+        if i % 2 == 0 {
+            c.direction(Direction::from(e.dir as i32));
+            if let Some(k) = e.terminal {
+                c.terminal_count(k);
+            }
+        } else {
+            match e.terminal {
+                Some(1) => c.terminal(),
+                Some(k) => c.terminal_count(k),
+                None => {}
+            }
+            match e.dir {
+                0 => c.all(),
+                1.. => c.positive(),
+                _ => c.negative(),
+            }
         }
         c
     }
